@@ -93,6 +93,134 @@ pub mod cm {
     }
 }
 
+pub mod scanners {
+    //! Wrappers around the crate-private `crate::scanners` (the re2c-generated lexical scanners),
+    //! one per scanner function, same arguments and results.  Enum results are returned as small
+    //! integers so that the harness does not depend on crate-private types.
+    use crate::scanners as sc;
+
+    pub fn atx_heading_start(s: &[u8]) -> Option<usize> {
+        sc::atx_heading_start(s)
+    }
+    pub fn open_code_fence(s: &[u8]) -> Option<usize> {
+        sc::open_code_fence(s)
+    }
+    pub fn close_code_fence(s: &[u8]) -> Option<usize> {
+        sc::close_code_fence(s)
+    }
+    pub fn html_block_start(s: &[u8]) -> Option<usize> {
+        sc::html_block_start(s)
+    }
+    pub fn html_block_start_7(s: &[u8]) -> Option<usize> {
+        sc::html_block_start_7(s)
+    }
+    pub fn footnote_definition(s: &[u8]) -> Option<usize> {
+        sc::footnote_definition(s)
+    }
+    pub fn scheme(s: &[u8]) -> Option<usize> {
+        sc::scheme(s)
+    }
+    pub fn autolink_uri(s: &[u8]) -> Option<usize> {
+        sc::autolink_uri(s)
+    }
+    pub fn autolink_email(s: &[u8]) -> Option<usize> {
+        sc::autolink_email(s)
+    }
+    pub fn html_tag(s: &[u8]) -> Option<usize> {
+        sc::html_tag(s)
+    }
+    pub fn html_comment(s: &[u8]) -> Option<usize> {
+        sc::html_comment(s)
+    }
+    pub fn html_processing_instruction(s: &[u8]) -> Option<usize> {
+        sc::html_processing_instruction(s)
+    }
+    pub fn html_declaration(s: &[u8]) -> Option<usize> {
+        sc::html_declaration(s)
+    }
+    pub fn html_cdata(s: &[u8]) -> Option<usize> {
+        sc::html_cdata(s)
+    }
+    pub fn spacechars(s: &[u8]) -> Option<usize> {
+        sc::spacechars(s)
+    }
+    pub fn link_title(s: &[u8]) -> Option<usize> {
+        sc::link_title(s)
+    }
+    pub fn dangerous_url(s: &[u8]) -> Option<usize> {
+        sc::dangerous_url(s)
+    }
+    pub fn table_start(s: &[u8]) -> Option<usize> {
+        sc::table_start(s)
+    }
+    pub fn table_cell_end(s: &[u8]) -> Option<usize> {
+        sc::table_cell_end(s)
+    }
+    pub fn table_row_end(s: &[u8]) -> Option<usize> {
+        sc::table_row_end(s)
+    }
+    pub fn open_multiline_block_quote_fence(s: &[u8]) -> Option<usize> {
+        sc::open_multiline_block_quote_fence(s)
+    }
+    pub fn close_multiline_block_quote_fence(s: &[u8]) -> Option<usize> {
+        sc::close_multiline_block_quote_fence(s)
+    }
+    pub fn description_item_start(s: &[u8]) -> Option<usize> {
+        sc::description_item_start(s)
+    }
+    pub fn html_block_end_1(s: &[u8]) -> bool {
+        sc::html_block_end_1(s)
+    }
+    pub fn html_block_end_2(s: &[u8]) -> bool {
+        sc::html_block_end_2(s)
+    }
+    pub fn html_block_end_3(s: &[u8]) -> bool {
+        sc::html_block_end_3(s)
+    }
+    pub fn html_block_end_4(s: &[u8]) -> bool {
+        sc::html_block_end_4(s)
+    }
+    pub fn html_block_end_5(s: &[u8]) -> bool {
+        sc::html_block_end_5(s)
+    }
+    pub fn table_cell(s: &[u8], spoiler: bool) -> Option<usize> {
+        sc::table_cell(s, spoiler)
+    }
+    pub fn tasklist(s: &[u8]) -> Option<(usize, u8)> {
+        sc::tasklist(s)
+    }
+    /// 0 = Note, 1 = Tip, 2 = Important, 3 = Warning, 4 = Caution
+    pub fn alert_start(s: &[u8]) -> Option<u8> {
+        use crate::parser::alert::AlertType;
+        sc::alert_start(s).map(|a| match a {
+            AlertType::Note => 0,
+            AlertType::Tip => 1,
+            AlertType::Important => 2,
+            AlertType::Warning => 3,
+            AlertType::Caution => 4,
+        })
+    }
+    /// 0 = Equals, 1 = Hyphen
+    pub fn setext_heading_line(s: &[u8]) -> Option<u8> {
+        sc::setext_heading_line(s).map(|c| match c {
+            sc::SetextChar::Equals => 0,
+            sc::SetextChar::Hyphen => 1,
+        })
+    }
+    /// `None` when the crate is built without the `shortcodes` feature (the scanner is not compiled then)
+    pub fn shortcode(s: &[u8]) -> Option<Option<usize>> {
+        #[cfg(feature = "shortcodes")]
+        {
+            Some(sc::shortcode(s))
+        }
+        #[cfg(not(feature = "shortcodes"))]
+        {
+            let _ = s;
+            None
+        }
+    }
+}
+
 thread_local! {
     static LINE_LOG: std::cell::RefCell<Option<Vec<Vec<u8>>>> = std::cell::RefCell::new(None);
 }
